@@ -15,8 +15,6 @@ def classify(w):
     if last == "abs_inst" and transits_before:
         return "instantaneous_absorption_requested_with_transits"
     bio_present = (start == "pheno_rich" or "bio_add" in prev) and "bio_remove" not in prev
-    if last == "abs_inst" and bio_present and "changed bioavailability from True to False" in what:
-        return "instantaneous_absorption_drops_bioavailability"
     if what.startswith("reversibility") and last in ("transits_1", "transits_3") and bio_present:
         return "transit_removal_loses_bioavailability"
     if last == "transits_0" and "frame: transits_0 changed lagtime from True to False" in what:
